@@ -325,35 +325,41 @@ def recursive_walk(chk, mi, q):
     chk.floor("C08.R5", n, 2, "recursive walk child paths")
 
 
+def _qa_fields(repo, e):
+    """(t, qtype, scale) texts of a quantize_activation(...) call, None otherwise"""
+    if not (isinstance(e, ast.Call) and U(e.func) == "quantize_activation"):
+        return None
+    b = bind_call(repo.func("quantize_activation")[1], e)
+    if b is None:
+        return None
+    ps = positional_params(repo.func("quantize_activation")[1])
+    return tuple(U(b[x]) for x in ps[:3])
+
+
+def _requantized(repo, e, src, f, scale_attr):
+    """Is `e` the value `src` (a quantized activation) passed on / re-quantized as the module requires?
+    kept as is  <=>  src.qtype == self.activation_qtype and src.axis is None;  otherwise dequantized and re-quantized with the scale."""
+    same_q = f.get(f"{src}.qtype == self.activation_qtype")
+    per_t = f.get(f"{src}.axis is None")
+    if U(e) == src:
+        return same_q is True and per_t is True
+    qa = _qa_fields(repo, e)
+    if qa is None:
+        return False
+    both = f.get(f"{src}.qtype == self.activation_qtype and {src}.axis is None")
+    if both is None:
+        both = f.get(f"{src}.axis is None and {src}.qtype == self.activation_qtype")
+    return qa == (f"{src}.dequantize()", "self.activation_qtype", f"self.{scale_attr}") and (same_q is False or per_t is False or both is False)
+
+
 def forward_rule(chk, qm):
     repo = chk.repo
     ci = repo.cls("QModuleMixin")
     mi = ci.mod
     fwd = ci.own("forward")
     inp = positional_params(fwd)[1]
-    closures = [n for n in fwd.body if isinstance(n, ast.FunctionDef)]
-    rq = closures[0] if closures else None
-    if rq is None:
-        chk.unknown("C08.R6", f"{mi.rel}:{fwd.lineno}", "forward: requantization helper not found")
-        return
-    t, sc = positional_params(rq)[:2]
-    n_keep = n_rq = 0
-    for p in paths_of(rq):
-        if p.end[0] != "return":
-            continue
-        f = path_facts(p)
-        e = U(p.end[1])
-        site = f"{mi.rel}:{p.end[2]}"
-        if e == t:
-            n_keep += 1
-            ok = f.get(f"{t}.qtype == self.activation_qtype") is True and f.get(f"{t}.axis is None") is True
-            chk.require("C08.R6", site, ok, "a quantized activation is kept only when it already has the module's activation qtype and is per-tensor", "QModuleMixin.forward.maybe_requantize", "keep condition", "an activation of another qtype / a per-axis tensor is passed on unchanged")
-        else:
-            n_rq += 1
-            ok = e == f"quantize_activation({t}.dequantize(), qtype=self.activation_qtype, scale={sc})"
-            chk.require("C08.R6", site, ok, f"otherwise it is dequantized and re-quantized with the module's qtype and the given scale: `{e[:90]}`", "QModuleMixin.forward.maybe_requantize", "requantize term", "an activation quantized with another qtype/scale")
-    chk.floor("C08.R6", n_keep + n_rq, 2, "maybe_requantize paths")
     n = 0
+    seen_kinds = set()
     for p in paths_of(fwd):
         if p.end[0] != "return":
             continue
@@ -361,23 +367,42 @@ def forward_rule(chk, qm):
         f = path_facts(p)
         site = f"{mi.rel}:{p.end[2]}"
         act = f.get("self.activation_qtype is None") is False
-        e = U(p.end[1])
-        qin = f.get(f"isinstance({inp}, QBytesTensor)")
-        arg = f"{rq.name}({inp}, self.input_scale)" if (act and qin) else inp
-        raw = f"self.qforward({arg})"
+        e = p.end[1]
+        calls = [c for c in ast.walk(e) if isinstance(c, ast.Call) and U(c.func) == "self.qforward"]
+        if not calls:
+            chk.bad("C08.R6", site, "QModuleMixin.forward", "forward does not call qforward", f"forward returns `{U(e)[:80]}` without calling self.qforward", "any forward")
+            continue
+        raw = max(calls, key=lambda c: len(U(c)))
+        arg = raw.args[0] if raw.args else None
+        rawt = U(raw)
+        qn = "QModuleMixin.forward"
         if not act:
-            ok = e == f"self.qforward({inp})"
-            chk.require("C08.R6", site, ok, f"without quantized activations forward is qforward(input): `{e[:80]}`", "QModuleMixin.forward", "no-activation path", "a weight-only quantized module alters its input or output")
+            ok = U(e) == f"self.qforward({inp})"
+            chk.require("C08.R6", site, ok, f"without quantized activations forward is qforward(input): `{U(e)[:80]}`", qn, "no-activation path", "a weight-only quantized module alters its input or output")
+            seen_kinds.add("noact")
             continue
-        if qin is None:
-            # activation_qtype set but the isinstance test short-circuited: cannot happen once act is known
-            chk.unknown("C08.R6", site, "forward: input kind undecided on an activation path")
-            continue
-        qout = f.get(f"isinstance({raw}, QBytesTensor)")
-        want = f"{rq.name}({raw}, self.output_scale)" if qout else f"quantize_activation({raw}, qtype=self.activation_qtype, scale=self.output_scale)"
-        chk.require("C08.R6", site, e == want and qout is not None, f"activation path (quantized input={qin}, quantized raw output={qout}): returns `{e[:110]}`", "QModuleMixin.forward", f"activation path in={qin} out={qout}",
-                    "a module with quantized activations: input not re-quantized with input_scale, or output quantized with the wrong scale/qtype")
+        qin = f.get(f"isinstance({inp}, QBytesTensor)")
+        if qin is True:
+            ok_in = _requantized(repo, arg, inp, f, "input_scale")
+        elif qin is False:
+            ok_in = U(arg) == inp
+        else:
+            ok_in = False
+        chk.require("C08.R6", site, ok_in, f"activation path (quantized input={qin}): qforward receives `{U(arg)[:100]}` (a quantized input is kept only if it has the module's qtype and is per-tensor, else re-quantized with input_scale)", qn, f"input requantization in={qin}",
+                    "a quantized input of another qtype / per-axis / the wrong scale reaches qforward")
+        qout = f.get(f"isinstance({rawt}, QBytesTensor)")
+        if qout is True:
+            ok_out = _requantized(repo, e, rawt, f, "output_scale")
+        elif qout is False:
+            ok_out = _qa_fields(repo, e) == (rawt, "self.activation_qtype", "self.output_scale")
+        else:
+            ok_out = False
+        chk.require("C08.R6", site, ok_out, f"activation path (quantized raw output={qout}): forward returns `{U(e)[:110]}` (output quantized with activation_qtype and output_scale)", qn, f"output quantization out={qout}",
+                    "a module with quantized activations: output not quantized, or quantized with the wrong scale/qtype")
+        seen_kinds.add(("act", qin, qout))
     chk.floor("C08.R6", n, 4, "forward paths")
+    need = {"noact", ("act", True, False), ("act", False, False)}
+    chk.require("C08.R6", f"{mi.rel}:{fwd.lineno}", need <= seen_kinds, f"forward has paths for: no activations, quantized input, float input (seen {sorted(map(str, seen_kinds))})", "QModuleMixin.forward", "forward path coverage", "a quantized input is never re-quantized / a float output never quantized")
     # qforward of each registered class
     fsig = functional_signature("layer_norm")
     for tname, qci in sorted(qm.items()):
